@@ -717,3 +717,51 @@ func bindingExhaustive(spec WorldSpec) [][]byte {
 	}
 	return out
 }
+
+// parseErrorInputs: every combination of a run of leading blanks (0, 1, 127, 128, 129 of each kind; 4096 spaces / line
+// feeds; mixed) with every truncation point of valid requests / batches and a syntax error at every offset.
+// (The blanks are consumed by isBatch before the decoder starts; the parse-error printer maps decoder offsets
+// back: an end-of-input error is located from the bytes read, a syntax error from the decoder's offset.)
+func parseErrorInputs(part, parts int, thorough bool) [][]byte {
+	docs := []string{
+		`{"jsonrpc":"2.0","method":"opt3","params":[7,true,"é\n"],"id":1}`,
+		"{\n  \"jsonrpc\": \"2.0\",\n  \"method\": \"noargs\",\n  \"id\": \"a\"\n}",
+		`[{"jsonrpc":"2.0","method":"noargs","id":1}, {"jsonrpc":"2.0","method":"sub","params":{"minuend":5,"subtrahend":3}}]`,
+		`[1,"x",{"jsonrpc":"2.0"}]`,
+	}
+	var prefixes []string
+	prefixes = append(prefixes, "")
+	for _, n := range []int{1, 2, 127, 128, 129} {
+		for _, k := range []string{" ", "\t", "\r", "\n"} {
+			prefixes = append(prefixes, strings.Repeat(k, n))
+		}
+	}
+	prefixes = append(prefixes, " \n\t\r ", strings.Repeat(" \n", 70), strings.Repeat("\r\n", 300), strings.Repeat(" ", 4096), strings.Repeat("\n", 4096), strings.Repeat("\n", 511)+" ", strings.Repeat(" ", 513))
+	var out [][]byte
+	i := 0
+	add := func(s string) {
+		if i%parts == part {
+			out = append(out, []byte(s))
+		}
+		i++
+	}
+	for _, pre := range prefixes {
+		step := 1
+		if len(pre) > 1000 && !thorough {
+			step = 5
+		}
+		add(pre) // blanks only
+		for _, d := range docs {
+			for cut := 0; cut < len(d); cut += step {
+				add(pre + d[:cut]) // ends before the value is complete
+			}
+			for pos := 0; pos < len(d); pos += step {
+				add(pre + d[:pos] + "@" + d[pos+1:]) // a syntax error at every offset
+				if pos%7 == 0 {
+					add(pre + d[:pos] + "\n" + d[pos:] + " trailing") // line breaks shift line / position
+				}
+			}
+		}
+	}
+	return out
+}
